@@ -310,6 +310,50 @@ def expand_ast(func_node, expr, depth=3):
     return ast.parse(expand(func_node, expr, depth), mode="eval").body
 
 
+def text_template(expr):
+    """A text-building expression as pieces [("lit", text) | ("fmt", value text, format spec)], adjacent literals merged:
+    f"s{a:02d}", "s" + format(a, "02d") and "s" + f"{a:02d}" are the same template.  None for anything else."""
+    def pieces(e):
+        if isinstance(e, ast.Constant) and isinstance(e.value, str):
+            return [("lit", e.value)]
+        if isinstance(e, ast.JoinedStr):
+            out = []
+            for v in e.values:
+                if isinstance(v, ast.Constant):
+                    out.append(("lit", str(v.value)))
+                elif isinstance(v, ast.FormattedValue) and v.conversion == -1:
+                    spec = ""
+                    if v.format_spec is not None:
+                        if not (isinstance(v.format_spec, ast.JoinedStr) and all(isinstance(x, ast.Constant) for x in v.format_spec.values)):
+                            return None
+                        spec = "".join(str(x.value) for x in v.format_spec.values)
+                    out.append(("fmt", norm(v.value), spec))
+                else:
+                    return None
+            return out
+        if isinstance(e, ast.BinOp) and isinstance(e.op, ast.Add):
+            a, b = pieces(e.left), pieces(e.right)
+            return None if a is None or b is None else a + b
+        if isinstance(e, ast.Call) and isinstance(e.func, ast.Name) and e.func.id == "format" and not e.keywords and 1 <= len(e.args) <= 2:
+            if len(e.args) == 2 and not (isinstance(e.args[1], ast.Constant) and isinstance(e.args[1].value, str)):
+                return None
+            return [("fmt", norm(e.args[0]), e.args[1].value if len(e.args) == 2 else "")]
+        if isinstance(e, ast.Call) and isinstance(e.func, ast.Name) and e.func.id == "str" and len(e.args) == 1 and not e.keywords:
+            return [("fmt", norm(e.args[0]), "")]
+        return None
+
+    ps = pieces(expr)
+    if ps is None:
+        return None
+    merged = []
+    for p in ps:
+        if p[0] == "lit" and merged and merged[-1][0] == "lit":
+            merged[-1] = ("lit", merged[-1][1] + p[1])
+        elif not (p[0] == "lit" and p[1] == ""):
+            merged.append(p)
+    return merged
+
+
 def literal(func_node, expr):
     """(True, value) when expr is a literal or a local name bound once to a literal; (False, None) otherwise."""
     try:
